@@ -179,6 +179,12 @@ func (r *Run) Finish(evaluations, distinctNontrivial int, rule string) {
 	}
 	cov["known_findings_met"] = kf
 	replayDir := filepath.Join(Dir(), "replays", r.ID)
+	// replay files of earlier runs do not describe this run
+	if old, _ := filepath.Glob(filepath.Join(replayDir, "violation-*.json")); len(old) > 0 {
+		for _, f := range old {
+			os.Remove(f)
+		}
+	}
 	if len(r.viol) > 0 {
 		os.MkdirAll(replayDir, 0o755)
 	}
